@@ -14,6 +14,8 @@ Next ==
   /\ LET e == Trace[l] IN
      /\ Report("UniqueRule", Cardinality(SetOf(e.aids)) = Len(e.aids) /\ 0 \notin SetOf(e.aids))
      /\ Report("UniqueRule", \A k \in 1..Len(e.iids) : Cardinality(SetOf(e.iids[k])) = Len(e.iids[k]) /\ 0 \notin SetOf(e.iids[k]))
+     \* an accessory that leaves its id to the container is never refused
+     /\ Report("UniqueRule", e.autorej = 0)
      /\ Report("StableRule", e.aids = e.aids2 /\ e.iids = e.iids2)
      \* the ids do not depend on how often the accessories were added to a container before
      /\ Report("StableRule", e.iids3 = e.iids)
